@@ -146,10 +146,11 @@ class Inst:
     """one harness instance = one goto program = one family of solver queries."""
     def __init__(self, id, props, harness, entry, tus=(), defs=(), stubs=(), unwind=3, unwindset=(),
                  backends=("z3", "sat"), timeout=120, tier="quick", objbits=12, mem_gb=16,
-                 bounds="", inputs="", c_sources=(), nounwind_assert=False, extra_cbmc=(), ub=True, desc="", model_unwind=17, short_strings=True):
+                 bounds="", inputs="", c_sources=(), nounwind_assert=False, extra_cbmc=(), ub=True, desc="", model_unwind=17, short_strings=True, truncate_long=False):
+        self.truncate_long = truncate_long
         self.model_unwind = model_unwind
         self.rest_backends = ["sat"]
-        self.long_unwind = 66
+        self.long_unwind = 100
         self.short_strings = short_strings
         self.id = id; self.props = list(props); self.harness = harness; self.entry = entry
         self.tus = list(tus); self.defs = list(defs); self.stubs = list(stubs)
@@ -205,7 +206,7 @@ def build_instance(inst, kfdir, workdir):
     csrc = [gen] + msrcs + [os.path.join(VERIF, c) for c in inst.c_sources]
     for c in csrc:
         o = os.path.join(workdir, os.path.basename(c)[:-2] + ".go")
-        r = sh(["goto-cc", "-I" + MODEL_DIR, "-I" + kfdir] + (["-DVX_SHORT_ONLY"] if inst.short_strings else []) + ["-c", c, "-o", o], cwd=workdir, env=dict(os.environ, TMPDIR=workdir))
+        r = sh(["goto-cc", "-I" + MODEL_DIR, "-I" + kfdir] + (["-DVX_SHORT_ONLY"] if inst.short_strings else []) + (["-DVX_TRUNC", "-DVX_SHORT_ONLY"] if inst.truncate_long else []) + ["-c", c, "-o", o], cwd=workdir, env=dict(os.environ, TMPDIR=workdir))
         if r.returncode != 0 or not os.path.exists(o):
             raise BuildError("goto-cc %s: %s" % (c, r.stdout[-4000:]))
         objs.append(o)
